@@ -1,11 +1,25 @@
 (* C02 -- a sealed generation records exactly the tree that is on disk.  Statements only.
-   PARTIAL: proved are (1) the traversal hands over exactly the non-ignored entries, each once, whatever the listing
-   order; (2) each entry is routed to the deepest history containing it and recorded under the path relative to that
-   history's root; (3) a new generation's record list never holds a path twice; (4) every digest written is the
-   digest of the file's bytes in the entry's own format.  That `create` composes these steps (fold over the events,
-   session, commit) is carried by the lockstep correspondence, not by a theorem. *)
+   Proved end to end for a tree whose only history is the root's (any number of prior generations, any patterns,
+   formats, -n): (0) create in folder mode writes one generation whose records are exactly the entries no ignore
+   pattern excludes -- every one, each once, nothing else.  Proved as separate steps for the general (nested) case:
+   (1) the traversal hands over exactly the non-ignored entries, each once, whatever the listing order; (2) each entry
+   is routed to the deepest history containing it and recorded under the path relative to that history's root; (3) a
+   new generation's record list never holds a path twice; (4) every digest written is the digest of the file's bytes
+   in the entry's own format.  PARTIAL: the composition of (1)-(4) for NESTED histories and for -sf mode is carried by
+   the lockstep correspondence, not by a theorem. *)
 From Coq Require Import Permutation.
-From MHL Require Import Model.Create Proofs.BaseFacts Proofs.TreeFacts Proofs.RouteFacts Proofs.SealFacts.
+From MHL Require Import Model.Commands Proofs.BaseFacts Proofs.TreeFacts Proofs.RouteFacts Proofs.SealFacts Proofs.CreateFacts.
+
+(* (0) the composed command, flat history: the new generation records exactly the tree *)
+Theorem C02_create_records_exactly_the_tree : forall Hb matches C cdig ser (t : node C) h0 req no_dh ip ifl,
+  load C cdig t = inl [h0] -> is_dir C t = true -> req <> [] ->
+  let spec := set_patterns (latest_patterns (lh_gens h0)) ip (pattern_file_lines ifl) in
+  let o := snd (create_folder Hb matches C cdig ser t req no_dh false ip ifl) in
+  o_outcome o <> Abort ->
+  exists doc, o_written o = [([], doc)] /\ NoDup (map r_path (g_records doc)) /\
+              forall q, In q (map r_path (g_records doc)) <-> In q (map fst (entries matches C spec [] t)).
+Proof. exact create_flat_records_exact. Qed.
+Print Assumptions C02_create_records_exactly_the_tree.
 
 (* (1) exactly the visible entries, each exactly once: for every tree, pattern list and matcher *)
 Theorem C02_traversal_exact : forall matches C spec t p,
